@@ -197,6 +197,25 @@ PROPS["C12"] = {
                   "variants, save + reopen, source bytes) for the rest.",
     "level_note": "Content without line breaks is a precondition. The file / stream model is an assumed environment contract.",
 }
+PROPS["C14"] = {
+    "units": ["contracts.c14_storage"],
+    "bounded": True,
+    "level": "proof",
+    "trusted_base": ["pyvc VC generator (/verif/pyvc)", "z3", "Python semantics as listed in DESIGN.md §2.3",
+                     "environment contracts (DESIGN §4): re-entrant RLock = mutual exclusion, manager list / Value as local values under the lock, "
+                     "print(flush=True) appends one complete line, readline at the offset of a complete line returns it, files append-only",
+                     "TextFileStorage.open / close (assumed contracts)"],
+    "level_text": "Thread-modular (monitor) proof: the monitor invariant - stored count = number of index entries (counting function with seven "
+                  "lemmas proved by induction), _waiting_for = smallest id not stored, and K: every stored id's line is COMPLETE in its writer's "
+                  "file at the recorded offset - is required at every outermost lock release (monitor-inv@release), re-assumed together with "
+                  "the rely (entries only added, files only appended, own file untouched by others) at every environment call made while the "
+                  "lock is free, i.e. for every interleaving at lock / IO granularity. __setitem__: ValueError only if the id is stored, else "
+                  "a later read returns exactly the text; __getitem__: returns exactly the stored text (pair read under the lock is stable "
+                  "under the rely) or IndexError; _index is only accessed under the lock (guarded-access); len; is_contiguous <=> ids are "
+                  "0..len-1; flush resets everything (quiescent precondition).",
+    "level_note": "Ids >= 0, single-line texts, one writer file per process. Attribute reads of the two shared counters are atomic snapshots. "
+                  "__iter__ (generator holding the lock across yields) and open/close are covered by the bounded layer only.",
+}
 
 # properties not claimed, with the reason (everything else not in PROPS gets the generic "not built yet" reason)
 NOT_APPLICABLE = {}
